@@ -624,6 +624,9 @@ func (g *GoFakeS3) createObjectBrowserUpload(bucket string, w http.ResponseWrite
 	if err := r.ParseMultipartForm(_24MB); nil != err {
 		return ErrMalformedPOSTRequest
 	}
+	// net/http removes the temporary files of the request it handed to the
+	// server's handler; r may be a copy of that request made by a middleware.
+	defer r.MultipartForm.RemoveAll()
 
 	keyValues := r.MultipartForm.Value["key"]
 	if len(keyValues) != 1 {
